@@ -160,7 +160,14 @@ pub(crate) unsafe fn client_channel_read_coils(
     // still completes the callback exactly once
     let callback = sfio_promise::wrap(callback);
     let channel = channel.as_mut().ok_or(ffi::ParamError::NullParameter)?;
-    let range = AddressRange::try_from(range.start, range.count)?;
+    let range = match AddressRange::try_from(range.start, range.count) {
+        Ok(range) => range,
+        Err(err) => {
+            // what the Rust API reports for a request with this range
+            callback.complete(Err(err.into()));
+            return Err(err.into());
+        }
+    };
     channel
         .inner
         .read_coils(param.into(), range, |res| callback.complete(res))?;
@@ -175,7 +182,14 @@ pub(crate) unsafe fn client_channel_read_discrete_inputs(
 ) -> Result<(), ffi::ParamError> {
     let callback = sfio_promise::wrap(callback);
     let channel = channel.as_mut().ok_or(ffi::ParamError::NullParameter)?;
-    let range = AddressRange::try_from(range.start, range.count)?;
+    let range = match AddressRange::try_from(range.start, range.count) {
+        Ok(range) => range,
+        Err(err) => {
+            // what the Rust API reports for a request with this range
+            callback.complete(Err(err.into()));
+            return Err(err.into());
+        }
+    };
     channel
         .inner
         .read_discrete_inputs(param.into(), range, |res| callback.complete(res))?;
@@ -190,7 +204,14 @@ pub(crate) unsafe fn client_channel_read_holding_registers(
 ) -> Result<(), ffi::ParamError> {
     let callback = sfio_promise::wrap(callback);
     let channel = channel.as_mut().ok_or(ffi::ParamError::NullParameter)?;
-    let range = AddressRange::try_from(range.start, range.count)?;
+    let range = match AddressRange::try_from(range.start, range.count) {
+        Ok(range) => range,
+        Err(err) => {
+            // what the Rust API reports for a request with this range
+            callback.complete(Err(err.into()));
+            return Err(err.into());
+        }
+    };
     channel
         .inner
         .read_holding_registers(param.into(), range, |res| callback.complete(res))?;
@@ -205,7 +226,14 @@ pub(crate) unsafe fn client_channel_read_input_registers(
 ) -> Result<(), ffi::ParamError> {
     let callback = sfio_promise::wrap(callback);
     let channel = channel.as_mut().ok_or(ffi::ParamError::NullParameter)?;
-    let range = AddressRange::try_from(range.start, range.count)?;
+    let range = match AddressRange::try_from(range.start, range.count) {
+        Ok(range) => range,
+        Err(err) => {
+            // what the Rust API reports for a request with this range
+            callback.complete(Err(err.into()));
+            return Err(err.into());
+        }
+    };
     channel
         .inner
         .read_input_registers(param.into(), range, |res| callback.complete(res))?;
@@ -250,7 +278,14 @@ pub(crate) unsafe fn client_channel_write_multiple_coils(
     let callback = sfio_promise::wrap(callback);
     let channel = channel.as_mut().ok_or(ffi::ParamError::NullParameter)?;
     let items = items.as_ref().ok_or(ffi::ParamError::NullParameter)?;
-    let args = WriteMultiple::from(start, items.inner.clone())?;
+    let args = match WriteMultiple::from(start, items.inner.clone()) {
+        Ok(args) => args,
+        Err(err) => {
+            // what the Rust API reports for a request with these values
+            callback.complete(Err(err.into()));
+            return Err(err.into());
+        }
+    };
     channel
         .inner
         .write_multiple_coils(param.into(), args, |res| callback.complete(res))?;
@@ -267,7 +302,14 @@ pub(crate) unsafe fn client_channel_write_multiple_registers(
     let callback = sfio_promise::wrap(callback);
     let channel = channel.as_mut().ok_or(ffi::ParamError::NullParameter)?;
     let items = items.as_ref().ok_or(ffi::ParamError::NullParameter)?;
-    let args = WriteMultiple::from(start, items.inner.clone())?;
+    let args = match WriteMultiple::from(start, items.inner.clone()) {
+        Ok(args) => args,
+        Err(err) => {
+            // what the Rust API reports for a request with these values
+            callback.complete(Err(err.into()));
+            return Err(err.into());
+        }
+    };
     channel
         .inner
         .write_multiple_registers(param.into(), args, |res| callback.complete(res))?;
